@@ -208,6 +208,8 @@ class Engine:
         self.merge_depth = 0
         self.merges = 0
         self.feas_unknown = 0
+        self.witnesses = []
+        self.want_witnesses = int(self.opts.get('witnesses', 1))
         self.choice_prefix = list(self.opts.get('choice_prefix', ()))
         self.probe_depth = self.opts.get('probe_depth')
         self.probe_out = []
@@ -716,6 +718,10 @@ class Engine:
                 work.append(f)
             if st.status == "run":
                 work.append(st)
+            if st.status == "done" and not init and len(self.witnesses) < self.want_witnesses and not self.probe_depth:
+                # translator validation: a concrete input that drives the real code down this completed path
+                if self.check(st) == "sat":
+                    self.witnesses.append({"replay": self.model_vals(st), "reached": list(st.reached)})
             if st.status in ("done", "panic"):
                 self.paths += 1
                 for r in st.reached:
